@@ -443,6 +443,8 @@ class C20(Property):
         def close(a, b):
             if isinstance(a, float) and math.isnan(a):
                 return isinstance(b, float) and math.isnan(b) or (np.ndim(b) == 0 and np.isnan(b))
+            if not (math.isfinite(a) and math.isfinite(b)):
+                return a == b  # a non-finite value only matches the identical non-finite value
             return abs(a - b) <= 1e-12 * max(abs(a), abs(b)) + 1e-290
 
         for incl in (True, False):
